@@ -679,6 +679,8 @@ func (ld *Loaded) verifyContract(c *Contract, useContracts bool) (vcs []*VC, err
 			r := x.evalPred(cl.Fn, inst.args, pre, st, nil, nil).(*Term)
 			x.assume(r)
 		}
+		x.pinBoolHyps(st)
+		pre = st.h.clone()
 		x.obligs = nil
 		mods := x.resolveMods(c.Modifies, inst.args, st, nil)
 		rv, rst := x.run(c.Fn, inst.args, &State{h: st.h.clone()}, x.b.True())
@@ -713,7 +715,11 @@ func (ld *Loaded) verifyContract(c *Contract, useContracts bool) (vcs []*VC, err
 			name += "[" + inst.label + "]"
 		}
 		x.addArgValues(q, c, inst.args, pre)
-		vcs = append(vcs, &VC{Name: name, Layer: c.Layer, Props: c.Props, Query: q, B: x.b, Exec: x, Replay: &ReplaySpec{Kind: "func", Contract: c}})
+		rk := "func"
+		if c.Fn.Pkg.Pkg.Name() == "main" {
+			rk = "none" // commands talk to the OS: never executed by a replay
+		}
+		vcs = append(vcs, &VC{Name: name, Layer: c.Layer, Props: c.Props, Query: q, B: x.b, Exec: x, Replay: &ReplaySpec{Kind: rk, Contract: c}})
 	}
 	return vcs, nil
 }
